@@ -242,17 +242,18 @@ pub fn block_size_of_text_ptr(p: *const u8) -> usize {
 pub fn type_eq_stub<T: ?Sized, U: ?Sized>() -> bool {
     let a = core::any::type_name::<T>().as_bytes();
     let b = core::any::type_name::<U>().as_bytes();
-    if a.len() != b.len() {
+    let n = a.len();
+    if n != b.len() {
         return false;
     }
-    let mut i = 0;
+    // loop-free (unrolled) comparison, so that harnesses can keep a tiny unwind bound for the
+    // formatter's own loops
+    assert!(n <= 48, "[shim] type name longer than the unrolled comparison");
     let mut eq = true;
-    while i < a.len() {
-        if a[i] != b[i] {
-            eq = false;
-        }
-        i += 1;
+    macro_rules! at {
+        ($($i:literal)*) => { $( if $i < n && a[$i] != b[$i] { eq = false; } )* };
     }
+    at!(0 1 2 3 4 5 6 7 8 9 10 11 12 13 14 15 16 17 18 19 20 21 22 23 24 25 26 27 28 29 30 31 32 33 34 35 36 37 38 39 40 41 42 43 44 45 46 47);
     eq
 }
 
